@@ -457,6 +457,7 @@ func (ft *FuncTr) builtin(st *State, at *Term, in ssa.Instruction, c *ssa.CallCo
 		case *types.Slice:
 			return Val{T: SlcLen(a)}, nil
 		case *types.Map:
+			ft.requireGuard(st, at, c.Args[0], false, in.Pos())
 			ft.assume(at, ft.h.mapWF(st, t, a))
 			return Val{T: ft.h.mapCard(st, t, a)}, nil
 		case *types.Basic:
@@ -479,6 +480,7 @@ func (ft *FuncTr) builtin(st *State, at *Term, in ssa.Instruction, c *ssa.CallCo
 	case "copy":
 		return ft.copyBuiltin(st, at, in, c, args)
 	case "delete":
+		ft.requireGuard(st, at, c.Args[0], true, in.Pos())
 		mt := c.Args[0].Type().Underlying().(*types.Map)
 		ft.mapWriteFrame(st, at, mt, args[0].T, in.Pos())
 		ft.h.mapDelete(st, mt, args[0].T, args[1].T)
